@@ -55,6 +55,15 @@ Theorem c13_unop_passthrough :
 Proof. intros arr nformat np_bin np_divmod np_un np_item d2s np_cast np_empty H. exact (unop_passthrough arr nformat np_bin np_divmod np_un np_item d2s np_cast np_empty H). Qed.
 Print Assumptions c13_unop_passthrough.
 
+Example c13_unop_example :
+  (forall r nf, toy_dtype r = Ok nf -> toy_cast nf r = Ok r) /\
+  run_unop Z unit toy_bin toy_divmod toy_un (fun a => a) toy_dtype toy_cast (fun _ => 0) repo_tables
+           [mkfield Z unit NumericH5 tt (Some 5)] (VField 0) Invert true
+  = Ok (mkout Z unit [mkfield Z unit NumericH5 tt (Some 5); mkfield Z unit NumericMem tt (Some (-6));
+                      mkfield Z unit NumericH5 tt (Some (-6))]
+              [VField 1%nat] [VField 2%nat]).
+Proof. split; [exact toy_cast_id|vm_compute; reflexivity]. Qed.
+
 (* FULL (finite, by computation).  The operator table of the tree (as read into Model/Dispatch.v) is
    well formed, and contains no entry other than __X__ -> X(self, other), __rX__ -> X(other, self). *)
 Theorem c13_dispatch_table_correct :
@@ -105,3 +114,9 @@ Theorem c13_results_are_numpys :
            nth_error (o_heap _ _ out) (length h + length rs + i) = Some (mkfield arr nformat NumericH5 nf (Some r))).
 Proof. exact spec_results_are_numpys. Qed.
 Print Assumptions c13_results_are_numpys.
+
+(* the premise `spec_state … = Ok out` is satisfiable: divmod's two results, stored *)
+Example c13_spec_state_example :
+  exists out, spec_state Z unit toy_dtype [mkfield Z unit NumericMem tt None] [3; 1] true = Ok out /\
+              length (o_heap _ _ out) = 5%nat /\ o_results _ _ out = [VField 1%nat; VField 2%nat].
+Proof. eexists. split; [vm_compute; reflexivity|split; reflexivity]. Qed.
